@@ -48,12 +48,23 @@ type FSMSnapshot struct {
 	raft.FSMSnapshot
 	persistInvoked   bool
 	persistSucceeded bool
+	sinkIndex        uint64
+	sinkTerm         uint64
 	logger           *log.Logger
+}
+
+// snapshotIndexTermer is implemented by sinks which know the Raft index and
+// term of the snapshot they are writing.
+type snapshotIndexTermer interface {
+	IndexTerm() (uint64, uint64)
 }
 
 // Persist writes the snapshot to the given sink.
 func (f *FSMSnapshot) Persist(sink raft.SnapshotSink) (retError error) {
 	f.persistInvoked = true
+	if it, ok := sink.(snapshotIndexTermer); ok {
+		f.sinkIndex, f.sinkTerm = it.IndexTerm()
+	}
 
 	startT := time.Now()
 	defer func() {
